@@ -220,6 +220,9 @@ ANCHOR_CLASSES = {
     "HealthCheckServer": "repid.health_check_server", "_HttpServerProtocol": "repid.health_check_server", "HealthCheckStatus": "repid.health_check_server",
     "RoutingKey": "repid.data._key", "ArgsBucket": "repid.data._buckets", "ResultBucket": "repid.data._buckets", "_ArgsBucketInMessageId": "repid._utils.args_bucket_in_message_id",
     "_RepidJSONEncoder": "repid._utils.json_encoder", "_NoAction": "repid._utils.internal_exceptions",
+    "DelayProperties": "repid.data._parameters", "RetriesProperties": "repid.data._parameters", "ResultProperties": "repid.data._parameters", "RouterDefaults": "repid.router",
+    "MessageCategory": "repid.message", "PrioritiesT": "repid.data.priorities", "ActorData": "repid.actor", "ActorResult": "repid.actor", "Config": "repid.config",
+    "DependencyKind": "repid.dependencies.protocols",
 }
 
 
@@ -310,6 +313,11 @@ class Program:
                 m.imports.clear()
                 self._index_module(m)
         self._link_classes()
+        # anchors renamed or turned into module-level functions get their canonical place back first (so that they are not mistaken for new helpers)
+        self._needs_reindex = False
+        self.renamed_roles = canonicalise_private_helpers(self)
+        if self._needs_reindex:
+            self._reindex()
         # structure normalisations: inherited-from-private-base methods, then newly extracted private helpers inlined back (needs a re-index: the ASTs change)
         self.flattened = flatten_private_bases(self)
         self.inlined_helpers = []
@@ -669,6 +677,26 @@ def canonicalise_private_helpers(prog: "Program") -> dict[str, str]:
         cands = [m for name, m in c.methods.items() if not isinstance(m.node, ast.Lambda) and rec(m.node) and not any(name == k for _, k, _ in ROLE_TABLE if k in c.methods and k != canon)]
         taken = {k for q, k, _ in ROLE_TABLE if q == cq and k in c.methods}
         cands = [m for m in cands if m.name not in taken]
+        if not cands:
+            # 'method without self -> module-level function': a function of the class's module with the role is adopted as a static method of the class
+            fcands = [fn for fn in c.module.functions.values() if not isinstance(fn.node, ast.Lambda) and rec(fn.node)]
+            if len(fcands) == 1:
+                fn = fcands[0]
+                # AST surgery: the def moves into the class body as a static method under the canonical name (so every later re-index sees a method)
+                old_name = fn.name
+                mod_body = c.module.tree.body
+                if fn.node in mod_body:
+                    mod_body.remove(fn.node)
+                    fn.node.decorator_list = list(fn.node.decorator_list) + [ast.Name(id="staticmethod", ctx=ast.Load())]
+                    fn.node.name = canon
+                    c.node.body.append(fn.node)
+                    for call in ast.walk(c.module.tree):
+                        if isinstance(call, ast.Call) and isinstance(call.func, ast.Name) and call.func.id == old_name:
+                            call.func = ast.copy_location(ast.Attribute(value=ast.Name(id="self", ctx=ast.Load()), attr=canon, ctx=ast.Load()), call.func)
+                    ast.fix_missing_locations(c.module.tree)
+                    renamed[f"{cq}.{canon}"] = f"{old_name} (module-level function)"
+                    prog._needs_reindex = True
+            continue
         if len(cands) != 1:
             continue
         m = cands[0]
@@ -1349,8 +1377,6 @@ def inline_new_private_helpers(prog: "Program") -> list[str]:
         if h is None or isinstance(h.node, ast.Lambda) or not h.name.startswith("_") or (h.name.startswith("__") and h.name.endswith("__")) or h.name in KNOWN_PRIVATE:
             return False
         a = h.node.args
-        if a.vararg or a.kwarg:
-            return False
         if any(unparse(d) not in ("staticmethod", "classmethod") for d in h.node.decorator_list):
             return False
         if any(isinstance(x, (ast.Yield, ast.YieldFrom, ast.Global, ast.Nonlocal)) for x in ast.walk(h.node)):
@@ -1379,7 +1405,20 @@ def inline_new_private_helpers(prog: "Program") -> list[str]:
         if h.cls is not None and "staticmethod" not in decos and params and is_method_call:
             self_name, params = params[0], params[1:]
         binding: dict[str, ast.expr] = {}
-        if len(call.args) > len(params) or any(isinstance(x, ast.Starred) for x in call.args) or any(k.arg is None for k in call.keywords):
+        # pass-through: helper(..., *args, **kwargs) called as helper(..., *args, **kwargs) with plain names
+        star = [x for x in call.args if isinstance(x, ast.Starred)]
+        dstar = [k for k in call.keywords if k.arg is None]
+        if a.vararg or a.kwarg or star or dstar:
+            ok_v = (a.vararg is None and not star) or (a.vararg is not None and len(star) == 1 and call.args[-1] is star[0] and isinstance(star[0].value, ast.Name))
+            ok_k = (a.kwarg is None and not dstar) or (a.kwarg is not None and len(dstar) == 1 and isinstance(dstar[0].value, ast.Name))
+            if not (ok_v and ok_k):
+                return None
+            if a.vararg is not None:
+                binding[a.vararg.arg] = star[0].value
+            if a.kwarg is not None:
+                binding[a.kwarg.arg] = dstar[0].value
+            call = ast.Call(func=call.func, args=[x for x in call.args if not isinstance(x, ast.Starred)], keywords=[k for k in call.keywords if k.arg is not None])
+        if len(call.args) > len(params):
             return None
         for p, v in zip(params, call.args):
             binding[p] = v
@@ -1399,14 +1438,22 @@ def inline_new_private_helpers(prog: "Program") -> list[str]:
             binding[self_name] = call.func.value  # self / cls
         return binding
 
-    def instantiate(h: "FuncInfo", binding, uid: int, result_name: str | None = None, result_local: str | None = None, taken: frozenset = frozenset()):
+    def instantiate(h: "FuncInfo", binding, uid: int, result_name: str | None = None, result_local: str | None = None, taken: frozenset = frozenset(), result_map: dict | None = None):
         """(prelude statements, body statements) of h with parameters bound and locals renamed (the local that is returned takes the caller's target name)"""
         prelude = []
         subst: dict[str, ast.expr] = {}
         stored_params = {n.id for n in ast.walk(h.node) if isinstance(n, ast.Name) and isinstance(n.ctx, (ast.Store, ast.Del))}
+        uses: dict[str, int] = {}
+        for n_ in ast.walk(h.node):
+            if isinstance(n_, ast.Name) and isinstance(n_.ctx, ast.Load):
+                uses[n_.id] = uses.get(n_.id, 0) + 1
+        in_loop = {n_.id for lp in ast.walk(h.node) if isinstance(lp, (ast.For, ast.AsyncFor, ast.While, ast.ListComp, ast.SetComp, ast.DictComp, ast.GeneratorExp, ast.Lambda,
+                                                                       ast.FunctionDef, ast.AsyncFunctionDef)) and lp is not h.node
+                   for n_ in ast.walk(lp) if isinstance(n_, ast.Name)}
         for p, v in binding.items():
             simple = isinstance(v, (ast.Name, ast.Constant)) or (isinstance(v, ast.Attribute) and all(isinstance(x, (ast.Attribute, ast.Name, ast.Load)) for x in ast.walk(v)))
-            if simple and p not in stored_params:
+            once = uses.get(p, 0) <= 1 and p not in in_loop  # read (at most) once, not inside a loop / closure: the argument expression can stand where the parameter stood
+            if (simple or once) and p not in stored_params:
                 subst[p] = v
             else:
                 tmp = f"{p}__{h.name.strip('_')}{uid}"
@@ -1418,6 +1465,9 @@ def inline_new_private_helpers(prog: "Program") -> list[str]:
         ren = {n: f"{n}__{h.name.strip('_')}{uid}" for n in locals_ if n in taken}  # only names the caller already uses are renamed
         if result_name is not None and result_local in locals_:
             ren[result_local] = result_name
+        for loc, tgt in (result_map or {}).items():
+            if loc in locals_:
+                ren[loc] = tgt
 
         class T(ast.NodeTransformer):
             def visit_Name(self, node):
@@ -1443,8 +1493,44 @@ def inline_new_private_helpers(prog: "Program") -> list[str]:
 
     uid = [0]
 
-    def try_inline(f: "FuncInfo", st: ast.stmt):
-        """list of replacement statements or None"""
+    def inline_expr_helpers(f: "FuncInfo", st: ast.stmt) -> ast.stmt:
+        """calls of new private helpers whose whole body is `return <expression>` are replaced, wherever they occur in an expression, by that expression with the
+        parameters substituted (only plain-name / attribute / constant arguments)"""
+        class T(ast.NodeTransformer):
+            def visit_FunctionDef(self, node):
+                self.generic_visit(node)
+                return node
+
+            visit_AsyncFunctionDef = visit_FunctionDef
+
+            def visit_Call(self, node):
+                self.generic_visit(node)
+                h = callee_of(f, node)
+                if not eligible(h) or h.node is f.node or h.is_async:
+                    return node
+                body = [x for x in h.node.body if not (isinstance(x, ast.Expr) and isinstance(x.value, ast.Constant))]
+                if len(body) != 1 or not isinstance(body[0], ast.Return) or body[0].value is None:
+                    return node
+                binding = bind(h, node, isinstance(node.func, ast.Attribute))
+                if binding is None or not all(isinstance(v, (ast.Name, ast.Constant)) or (isinstance(v, ast.Attribute) and all(isinstance(x, (ast.Attribute, ast.Name, ast.Load)) for x in ast.walk(v)))
+                                              for v in binding.values()):
+                    return node
+                if any(isinstance(x, (ast.Lambda, ast.ListComp, ast.SetComp, ast.DictComp, ast.GeneratorExp, ast.NamedExpr)) for x in ast.walk(body[0].value)):
+                    return node  # own scopes / bindings inside the expression: leave it to the rule-level helpers
+
+                class S(ast.NodeTransformer):
+                    def visit_Name(self, n2):
+                        if n2.id in binding and isinstance(n2.ctx, ast.Load):
+                            return ast.copy_location(copy.deepcopy(binding[n2.id]), n2)
+                        return n2
+
+                done.append(f"{f.short()} <- {h.name}")
+                return ast.copy_location(S().visit(copy.deepcopy(body[0].value)), node)
+
+        return T().visit(st)
+
+    def try_inline(f: "FuncInfo", st: ast.stmt, tail: bool = False):
+        """list of replacement statements or None (tail: st is the last statement of the function body - the helper's own early returns then end the caller too)"""
         val = None
         kind = None
         if isinstance(st, ast.Expr):
@@ -1470,7 +1556,7 @@ def inline_new_private_helpers(prog: "Program") -> list[str]:
         rets = own_returns(h.node)
         last = h.node.body[-1] if h.node.body else None
         if kind == "stmt":
-            if any(r.value is not None for r in rets) or any(r is not last for r in rets):
+            if any(r.value is not None for r in rets) or (any(r is not last for r in rets) and not tail):
                 return None
         elif kind == "assign":
             if len(rets) != 1 or rets[0] is not last or rets[0].value is None:
@@ -1484,14 +1570,23 @@ def inline_new_private_helpers(prog: "Program") -> list[str]:
                 res_name, res_local = st.targets[0].id, rets[0].value.id
             del caller_names
         taken = frozenset({n.id for n in ast.walk(f.node) if isinstance(n, ast.Name)} | {x.arg for x in ast.walk(f.node) if isinstance(x, ast.arg)})
-        prelude, body = instantiate(h, binding, uid[0], res_name, res_local, taken)
+        res_map = None
+        if kind == "assign" and isinstance(st.targets[0], ast.Tuple) and isinstance(rets[0].value, ast.Tuple) and len(st.targets[0].elts) == len(rets[0].value.elts) \
+                and all(isinstance(x, ast.Name) for x in st.targets[0].elts) and all(isinstance(x, ast.Name) for x in rets[0].value.elts):
+            helper_uses = {n.id for n in ast.walk(h.node) if isinstance(n, ast.Name)}
+            pairs = {r_.id: t_.id for r_, t_ in zip(rets[0].value.elts, st.targets[0].elts)}
+            if all(t_ == r_ or t_ not in helper_uses for r_, t_ in pairs.items()) and len(set(pairs.values())) == len(pairs):
+                res_map = pairs
+        prelude, body = instantiate(h, binding, uid[0], res_name, res_local, taken, res_map)
         if kind == "stmt":
-            if body and isinstance(body[-1], ast.Return):
+            if body and isinstance(body[-1], ast.Return) and not tail:
                 body = body[:-1] or [ast.Pass()]
         elif kind == "assign":
             r = body[-1]
             if res_name is not None and isinstance(r.value, ast.Name) and r.value.id == res_name:
                 body = body[:-1] or [ast.Pass()]  # the returned local already carries the target's name
+            elif res_map is not None and isinstance(r.value, ast.Tuple) and [getattr(x, "id", None) for x in r.value.elts] == [x.id for x in st.targets[0].elts]:
+                body = body[:-1] or [ast.Pass()]  # the returned locals already carry the targets' names
             else:
                 body = body[:-1] + [ast.Assign(targets=st.targets, value=r.value)]
         out = prelude + body
@@ -1501,19 +1596,19 @@ def inline_new_private_helpers(prog: "Program") -> list[str]:
         done.append(f"{f.short()} <- {h.name}")
         return out
 
-    def rewrite_block(f: "FuncInfo", stmts: list) -> list:
+    def rewrite_block(f: "FuncInfo", stmts: list, top: bool = False) -> list:
         out = []
-        for st in stmts:
+        for idx, st in enumerate(stmts):
             if isinstance(st, ast.ClassDef):
                 out.append(st)
                 continue
             if isinstance(st, (ast.FunctionDef, ast.AsyncFunctionDef)):
                 # a nested function of f: same `self`, its own sync/async-ness
                 nf = FuncInfo(f.qualname + ".<locals>." + st.name, st.name, st, f.module, f.cls, f)
-                st.body = rewrite_block(nf, st.body)
+                st.body = rewrite_block(nf, st.body, top=True)
                 out.append(st)
                 continue
-            rep = try_inline(f, st)
+            rep = try_inline(f, st, tail=top and idx == len(stmts) - 1)
             if rep is not None:
                 out.extend(rep)
                 continue
@@ -1532,7 +1627,8 @@ def inline_new_private_helpers(prog: "Program") -> list[str]:
         if f.cls is not None and f.cls.methods.get(f.name) is not f and prog.functions.get(f.qualname) is not f:
             continue
         before = len(done)
-        f.node.body = rewrite_block(f, f.node.body)
+        f.node.body = rewrite_block(f, f.node.body, top=True)
+        f.node.body = [inline_expr_helpers(f, st_) for st_ in f.node.body]
         if len(done) != before:
             ast.fix_missing_locations(f.node)
     return done
